@@ -120,6 +120,7 @@ class Batch:
         self.bin, self.engine, self.prop, self.seed, self.workers = binpath, engine, prop, seed, workers
         self.viol, self.summaries, self.per_run, self.restarts, self.sigs = [], [], {}, 0, set()
         self.unsupported = False
+        self.broken = None
         self.sites = set()
         self.lock = threading.Lock()
 
@@ -137,7 +138,12 @@ class Batch:
                 cmd += ["--max-seconds", "%.1f" % left]
             if per_run:
                 cmd += ["--per-run"]
-            p = subprocess.run(cmd, stdout=subprocess.PIPE, stderr=subprocess.PIPE, text=True, errors="replace")
+            try:
+                p = subprocess.run(cmd, stdout=subprocess.PIPE, stderr=subprocess.PIPE, text=True, errors="replace")
+            except OSError as e:
+                with self.lock:
+                    self.broken = "cannot run %s: %s" % (cmd[0], e)
+                return
             done_to = None
             with self.lock:
                 for line in p.stdout.splitlines():
@@ -417,6 +423,10 @@ def check_engine_a(prop, tier, seed):
                 tot[k] = v
             else:
                 tot[k] = tot.get(k, 0) + v
+    for _, b in batches:
+        if getattr(b, "broken", None):
+            log("INFRASTRUCTURE: %s" % b.broken)
+            infra = True
     unsupported = any(getattr(b, "unsupported", False) for _, b in batches)
     if unsupported:
         log("INFRASTRUCTURE: instrumented code called a blocking primitive the scheduler does not model (condition variable / rwlock): no verdict")
@@ -480,6 +490,18 @@ def main():
         binpath = os.path.join(build(engine, variant), engine)
         p = subprocess.run([binpath, "replay", path, "--show"])
         return 1 if p.returncode in (1, 70, 77) else (0 if p.returncode == 0 else 2)
+    if sys.argv[1] == "selftest":
+        # determinism proof: for every engine / property, N indices are each executed twice, in different worker processes at two
+        # worker counts (4 and 16); the per-run history signatures must agree.  Exit 2 on any mismatch.
+        n = int(sys.argv[2]) if len(sys.argv) > 2 else 2000
+        bad_total = 0
+        for prop in sorted(PROPS):
+            cfg = PROPS[prop]; variant = cfg.get("variants", ["plain"])[0]
+            binpath = os.path.join(build(cfg["engine"], variant), cfg["engine"])
+            det_n, det_bad, missing = determinism(binpath, cfg["engine"], prop, seed, n)
+            log("selftest %s (%s/%s): %d indices run twice at 4 and %d workers, %d mismatches" % (prop, cfg["engine"], variant, det_n, NCPU, len(det_bad)))
+            bad_total += len(det_bad) + (1 if det_n < n else 0)
+        return 2 if bad_total else 0
     prop = sys.argv[1].upper()
     tier = os.environ.get("VERIF_TIER", "quick")
     if "--tier" in sys.argv:
